@@ -193,8 +193,16 @@ def r2(ctx: Ctx):
              'invalid key combinations are no longer rejected at build time',
              node=ck.node)
   ch = repo.func(TR, 'TreeTransform.chain')
-  t = unparse(ch.node)
-  if 'child.name in prev_names' in t and 'agg_output_keys.intersection(prev_agg_keys)' in t and t.count('raise ValueError') >= 3:
+  from mlmverif import pat
+  child = ch.params()[1]
+  g_ = cfgm.cfg_of(ch.node)
+  name_dup = [c for c in g_.nodes if c.kind == 'cond' and pat.match(f'{child}.name in $names', c.ast)]
+  key_dup = [c for c in g_.nodes if c.kind == 'cond' and any(
+      isinstance(x, ast.Call) and isinstance(x.func, ast.Attribute) and x.func.attr == 'intersection'
+      and 'agg_output_keys' in unparse(x.func.value) for x in cfgm.node_exprs(c))]
+  raising = lambda cs: cs and all(any(isinstance(s_.ast, ast.Raise) for s_, lab in c.succ if lab == 'true') for c in cs)
+  n_raise = len({id(n.ast) for n in g_.nodes if isinstance(n.ast, ast.Raise)})
+  if raising(name_dup) and raising(key_dup) and n_raise >= 3:
     ctx.ok(rule, ch, 'chain rejects duplicate names / aggregate keys / pre-wired children', ch.node)
   else:
     ctx.fail(rule, ch, 'chain: duplicate transform names and aggregate keys raise ValueError',
